@@ -1,22 +1,42 @@
 (* C11 — IsPlanar never panics and terminates: TOTALITY of the executable model of graph.IsPlanar
-   (Planar/DmpModel.v: every Go panic / index error is [RPanic], every loop runs on fuel and
-   running out is [RFuel]).  This file is about the model only (tied to the code by the
-   correspondence check); the "returns true exactly when planar" half of C11 is not touched. *)
+   (Planar/DmpModel.v: every Go panic and every index error is [RPanic], every loop runs on the
+   fuel fixed inside the model and running out of it is [RFuel]).  For EVERY value of type graph
+   the model returns `true` or `false`.  This file is about the model only (the model is tied to
+   the code by the correspondence check of C11, t / f / panic on every graph of every case); the
+   other half of C11, "returns true exactly when the graph is planar", is NOT touched here. *)
 From Coq Require Import List Arith Bool Lia.
 From Mamba Require Import Planar.Model Planar.DmpModel Planar.DmpTotalBase Planar.DmpTotalCheck
-  Planar.DmpTotal Planar.DmpTotalTop.
+  Planar.DmpTotalBic Planar.DmpTotalBdfs Planar.DmpTotal Planar.DmpTotalTop.
 Import ListNotations.
 
+(* ---- the whole model: no RPanic (neither panic("Oh dear") nor panic("This shouldn't happen...")
+   nor any index out of range), no RFuel (the fuel the model gives to each of its loops is enough:
+   S n for the lowpoint DFS, 2n+2 for the first cycle, 2m+2 iterations of the embedding loop,
+   2n+2 / n+2 for the path search and extraction, n+1 / n+2 for the exploration of fragments). *)
+Theorem C11_model_total : forall G, is_planar_model G = RT \/ is_planar_model G = RF.
+Proof. exact model_total. Qed.
+Print Assumptions C11_model_total.
+
+Definition octahedron_t : graph := mkG 6 [(0,2);(0,3);(0,4);(0,5);(1,2);(1,3);(1,4);(1,5);(2,4);(2,5);(3,4);(3,5)].
+(* K5 glued at vertex 4 to a 5-cycle with a chord, plus a pendant path and an isolated vertex *)
+Definition K5_plus_t : graph :=
+  mkG 12 [(0,1);(0,2);(0,3);(0,4);(1,2);(1,3);(1,4);(2,3);(2,4);(3,4);(4,5);(5,6);(6,7);(7,8);(8,4);(5,7);(8,9);(9,10)].
+(* the Petersen graph: 15 edges <= 3*10-6, rejected inside the embedding loop *)
+Definition petersen_t : graph :=
+  mkG 10 [(0,1);(1,2);(2,3);(3,4);(4,0);(0,5);(1,6);(2,7);(3,8);(4,9);(5,7);(7,9);(9,6);(6,8);(8,5)].
+
+Example C11_model_total_nonvacuous :
+  is_planar_model octahedron_t = RT /\ is_planar_model K33 = RF /\ is_planar_model petersen_t = RF /\
+  is_planar_model K5_plus_t = RF /\ is_planar_model (mkG 7 [(0,1);(5,5);(3,9)]) = RT.
+Proof. repeat split; vm_compute; reflexivity. Qed.
+
 (* ---- the embedding loop of one block: for every well-formed 2-connected graph with at least
-   three vertices the DMP procedure of the model ends with `true` or `false`: neither of the two
-   panic statements nor any index error is reachable, and the fuel of every loop suffices (the
-   embedding loop makes at most 2m+1 iterations: the measure is the sum over the fragments of the
-   degree sum of their inner vertices, 1 for a chord). *)
+   three vertices the DMP procedure of the model ends with `true` or `false` (measure of the
+   embedding loop: the sum over the fragments of the degree sum of their inner vertices, 1 for a
+   chord; it is < 2m+2 at the start and decreases in every iteration). *)
 Theorem C11_block_total : forall h, wfb h -> biconn h -> 3 <= bn h -> dmp h = RT \/ dmp h = RF.
 Proof. exact dmp_total. Qed.
 Print Assumptions C11_block_total.
-
-Definition octahedron_t : graph := mkG 6 [(0,2);(0,3);(0,4);(0,5);(1,2);(1,3);(1,4);(1,5);(2,4);(2,5);(3,4);(3,5)].
 
 Example C11_block_total_nonvacuous :
   (wfb (blk_of K33) /\ biconn (blk_of K33) /\ 3 <= bn (blk_of K33) /\ dmp (blk_of K33) = RF) /\
@@ -32,12 +52,18 @@ Proof.
   - vm_compute. reflexivity.
 Qed.
 
-(* ---- the whole model, PARTIAL: relative to the statement that the lowpoint DFS of the model
-   does not run out of its fuel and returns, for every block with at least five vertices, a
-   vertex set whose induced subgraph is well formed and 2-connected. *)
-Theorem C11_model_total_partial : forall g, b_fuel (blocks_st (blk_of g)) = false ->
-  (forall b, In b (blocks (blk_of g)) -> 5 <= length b ->
-     wfb (induced (blk_of g) b) /\ biconn (induced (blk_of g) b)) ->
-  is_planar_model g = RT \/ is_planar_model g = RF.
-Proof. exact model_total_cond. Qed.
-Print Assumptions C11_model_total_partial.
+(* ---- the lowpoint DFS of the model (it is NOT the model of graph.BiconnectedComponents proved
+   for C10): it stays within its fuel, and every vertex set it returns is an increasing list of
+   vertices that induces a 2-connected subgraph: after the removal of any vertex a, any two
+   remaining vertices of the set are joined by a walk inside the set that avoids a. *)
+Theorem C11_model_blocks_biconnected : forall h, wfb h ->
+  b_fuel (blocks_st h) = false /\
+  forall b, In b (blocks h) ->
+    (exists p, b = filter p (seq 0 (bn h))) /\ bicS h (fun x => In x b).
+Proof. exact blocks_biconnected. Qed.
+Print Assumptions C11_model_blocks_biconnected.
+
+Example C11_model_blocks_nonvacuous :
+  wfb (blk_of K5_plus_t) /\
+  blocks (blk_of K5_plus_t) = [[9;10]; [8;9]; [4;5;6;7;8]; [0;1;2;3;4]].
+Proof. split; [apply blk_of_wfb|vm_compute; reflexivity]. Qed.
